@@ -86,6 +86,9 @@ def correspondence(scn, res, projections):
     for ci, (a, b) in enumerate(zip(ic, mc)):
         if "out" in projections:
             ao, bo = canon_out(a["out"], scn, res), b["out"]
+            exp = scn.get("exp") or []
+            if ci < len(exp) and exp[ci].get("may_throw") and "throw" in (ao, bo) and (ao.startswith("ret") or bo.startswith("ret")):
+                ao = bo        # the property allows the call to report an error here (kernel-dependent)
             if ao != bo:
                 dis.append((ci, "out", ao[:300], bo[:300]))
         if a["out"] in ("blocked", "CRASH"):
@@ -601,7 +604,7 @@ def fam_refusals(rng, n, dist):
     rng.shuffle(combos)
     for i in range(n):
         (mode, rfc), kind, at, code = combos[i % len(combos)]
-        b = S.Builder(rng, mode, rfc, type=rng.choice("IA"))
+        b = S.Builder(rng, mode, rfc, type=rng.choice("IA"), tls=(i % 4 == 3), resume=rng.random() < 0.5)
         b.connect(login=(b"u", b"p"))
         if rng.random() < 0.5:
             add_transfer(b, rng, dist, kind=rng.choice(["D", "U", "F"]))
@@ -703,28 +706,241 @@ def fam_args(rng, n, dist):
     return out
 
 
+def fam_tls(rng, n, dist):
+    """TLS sessions: every method x resumption x TLS version, with refusals and failures injected at AUTH TLS, at the
+    control handshake, at PBSZ / PROT, at the data handshake, and data streams cut without close-notify"""
+    out = []
+    for i in range(n):
+        mode, rfc = ALL_METHODS[i % 4]
+        fault = rng.choice([None, None, "auth-refused", "ctl-handshake", "pbsz", "prot", "data-handshake", "truncate", "truncate",
+                            "truncate", "unknown-ca", "unclean-close"])
+        verify = "unknown" if fault == "unknown-ca" else rng.choice(["trusted", "trusted", "none"])
+        b = S.Builder(rng, mode, rfc, type=rng.choice("IIA"), tls=True, resume=rng.random() < 0.6,
+                      tlsver=rng.choice(["12", "12", "13"]), verify=verify)
+        if rng.random() < 0.5:
+            b.add_observer(1)
+        plan = dict(pbsz=503 if fault == "pbsz" else 200, prot=534 if fault == "prot" else 200)
+        login = (b"user-MARKER-u", b"pass-MARKER-p")
+        b.connect(login=login, auth=rng.choice([500, 534, 502]) if fault == "auth-refused" else 234, plan=plan,
+                  tls_ok=(fault != "ctl-handshake"), tls_close_clean=(fault != "unclean-close"))
+        dist.add("tls:fault-%s" % fault)
+        if fault in ("auth-refused", "ctl-handshake", "unknown-ca"):
+            b.disconnect(False)
+            out.append(b.scenario()); continue
+        for k in range(rng.randrange(1, 5)):
+            kind = rng.choice(["D", "U", "F", "S"])
+            if kind == "S":
+                add_simple(b, rng, 200)
+                continue
+            df = None
+            if fault == "data-handshake" and k == 0:
+                df = "handshake"
+            if fault == "truncate" and k == 0 and kind != "U":
+                df = "truncate"
+            payload = [b"PAYLOAD-MARKER " * rng.choice([0, 1, 50]), b"z" * rng.choice([0, 1, 9000])]
+            payload = [x for x in payload if x]
+            if df == "truncate":
+                payload = [b"q" * n0 for n0 in [rng.choice([0, 0, 1, 300, 8192, 20000])] if n0]
+            b.transfer(kind, b"f" if kind != "F" else None, payload_segs=payload, chunks=payload,
+                       cb=rng.choice([None, [False] * 60]) if kind != "F" else None, data_fault=df)
+            if df:
+                b.disconnect(False)
+                break
+        if b.connected:
+            r = rng.random()
+            if r < 0.3 and fault != "unclean-close":
+                b.logout()
+                if rng.random() < 0.5:
+                    b.login(b"again", b"pw")
+                b.disconnect(True)
+            elif r < 0.9:
+                e = b.disconnect(True)
+                if fault == "unclean-close":
+                    b.exp[e]["throws"] = True
+            else:
+                b.disconnect(False)
+                if fault == "unclean-close":
+                    b.exp[-1]["may_throw"] = True
+        out.append(b.scenario())
+    return out
+
+
+def fam_reconnect(rng, n, dist, tls_share=0.4):
+    """connect / operations / end of session / connect again: the next session must start clean"""
+    out = []
+    endings = ["quit", "drop", "421", "peer-close", "leftover", "failed-handshake", "mid-transfer-failure", "peer-reset"]
+    for i in range(n):
+        tls = rng.random() < tls_share
+        ending = endings[i % len(endings)]
+        if ending == "failed-handshake" and not tls:
+            tls = True
+        mode, rfc = rng.choice(ALL_METHODS)
+        b = S.Builder(rng, mode, rfc, type="I", tls=tls, resume=rng.random() < 0.5, tlsver="12", verify="trusted")
+        if rng.random() < 0.3:
+            b.add_observer(1)
+        b.connect(login=(b"u", b"p"), tls_ok=(ending != "failed-handshake"))
+        dist.add("reconnect:%s:%s" % ("tls" if tls else "plain", ending))
+        if ending == "failed-handshake":
+            b.disconnect(False)
+        else:
+            for _ in range(rng.randrange(0, 3)):
+                add_simple(b, rng, 200)
+            if rng.random() < 0.5:
+                add_transfer(b, rng, dist, kind=rng.choice(["D", "U", "F"]))
+            if ending == "quit":
+                b.disconnect(True)
+            elif ending == "drop":
+                b.disconnect(False)
+            elif ending == "421":
+                b.simple(b"NOOP", None, 421)
+                b.disconnect(False)
+            elif ending == "peer-close":
+                b.simple(b"NOOP", None, 200, close_after=True)
+                b.failing(("S", b"PWD", None), cmds=[], cmds_may_be_lost=True)
+                b.disconnect(False)
+            elif ending == "peer-reset":
+                b.simple(b"NOOP", None, 200, reset_after=True)
+                b.failing(("S", b"PWD", None), cmds=[], cmds_may_be_lost=True)
+                if rng.random() < 0.5:
+                    b.failing(("S", b"NOOP", None), cmds=[], cmds_may_be_lost=True)
+                b.disconnect(False)
+                b.exp[-1]["may_throw"] = True     # shutdown() on a reset socket may report the reset: allowed by C13
+            elif ending == "leftover":
+                b.simple(b"STAT", None, 211, extra=[299, 220])
+                b.disconnect(False)
+            elif ending == "mid-transfer-failure":
+                if mode == "P":
+                    b.transfer("D", b"f", payload_segs=[b"x"], listen="dead")
+                else:
+                    b.transfer("D", b"f", payload_segs=[b"x" * 10], fail_at=0)
+                    b.exp[-1]["throws"] = True
+                    b.exp[-1]["moves_data"] = False
+                b.disconnect(False)
+        # the next session, against another address
+        b.connect(login=(b"u2", b"p2"))
+        add_simple(b, rng, 200)
+        add_transfer(b, rng, dist, kind=rng.choice(["D", "F"]))
+        b.disconnect(True)
+        out.append(b.scenario())
+    return out
+
+
+def fam_reuse(rng, n, dist):
+    """TLS session reuse: 1-5 consecutive transfers on one session, reconnects, both TLS versions, resumption on/off"""
+    out = []
+    for i in range(n):
+        mode, rfc = ALL_METHODS[i % 4]
+        b = S.Builder(rng, mode, rfc, type="I", tls=True, resume=(i % 3 != 2), tlsver=("12" if i % 5 else "13"), verify="trusted")
+        b.connect(login=(b"u", b"p"))
+        for _ in range(rng.randrange(1, 6)):
+            add_transfer(b, rng, dist, kind=rng.choice(["D", "U", "F"]))
+        ending = rng.choice(["quit", "421", "quit"])
+        if ending == "421":
+            b.simple(b"NOOP", None, 421)
+            b.disconnect(False)
+        else:
+            b.disconnect(True)
+        if rng.random() < 0.6:
+            b.connect(login=(b"u", b"p"))
+            for _ in range(rng.randrange(1, 3)):
+                add_transfer(b, rng, dist, kind=rng.choice(["D", "U", "F"]))
+            b.disconnect(True)
+        dist.add("reuse:tls%s:resume-%s:end-%s" % (b.cfg["tlsver"], b.cfg["resume"], ending))
+        out.append(b.scenario())
+    return out
+
+
+def oracle_tls(scn, res):
+    """C11: what the peer saw ahead of its TLS engine"""
+    v = []
+    if not scn["cfg"]["tls"]:
+        return v
+    for si, log in enumerate(res["peer"]):
+        lines = log["lines"]
+        for k, l in enumerate(lines):
+            if l["line"].strip() == b"REIN":
+                break                 # the property is scoped to the span from connect until logout / disconnect
+            if not l["secured"] and l["line"].strip() != b"AUTH TLS":
+                v.append((-1, "tls/command-in-clear-text", "session %d: %r travelled unencrypted" % (si, l["line"][:40])))
+        raw = log.get("raw_in", b"")
+        for marker in (b"MARKER-u", b"MARKER-p"):
+            if marker in raw:
+                v.append((-1, "tls/credentials-in-clear-text", "session %d: %r found in the raw bytes" % (si, marker)))
+        fa = log.get("raw_first_after_auth")
+        if fa is not None and len(fa) >= 2 and fa[:2] != b"\x16\x03":
+            v.append((-1, "tls/bytes-after-234-are-not-a-handshake", repr(fa)))
+        for d in log["data"]:
+            if d.get("arrived") and d.get("tls") is not None:
+                fr = d.get("first_raw", b"")
+                if len(fr) >= 2 and fr[:2] != b"\x16\x03":
+                    v.append((-1, "tls/data-connection-starts-without-handshake", repr(fr)))
+    # a data stream that ended without close-notify must not be delivered as a complete transfer
+    for ci, (e, a) in enumerate(zip(scn["exp"], res["calls"])):
+        if a["out"] in ("blocked", "CRASH"):
+            break
+        key = scn["xfer_map"].get(ci)
+        if key and e["kind"] in ("D", "F"):
+            r = scn["sessions"][key[0]]["reactions"][key[1]]
+            d = r.get("data") or {}
+            if d.get("tls") and d.get("end") == "X" and not a["out"].startswith("throw"):
+                v.append((ci, "tls/truncated-data-stream-delivered-as-complete", a["out"][:80]))
+    return v
+
+
+def oracle_reuse(scn, res):
+    """C18: session offered by each data connection, as the peer's TLS engine saw it"""
+    v = []
+    c = scn["cfg"]
+    if not c["tls"]:
+        return v
+    for si, log in enumerate(res["peer"]):
+        k = 0
+        for d in log["data"]:
+            if d.get("tls") is not True:
+                continue
+            reused = d.get("reused")
+            if c["resume"] and not reused:
+                if c["tlsver"] == "13" and k >= 1:
+                    v.append((-1, "tls13/second-and-later-data-connection",
+                              "session %d: data connection #%d did a full handshake although resumption is on (TLS 1.3)" % (si, k + 1)))
+                else:
+                    v.append((-1, "tls/control-session-not-offered", "session %d: data connection #%d was not resumed" % (si, k + 1)))
+            if not c["resume"] and reused:
+                v.append((-1, "tls/unexpected-resumption", "session %d: data connection #%d resumed a session" % (si, k + 1)))
+            k += 1
+    return v
+
+
+ORACLES.update(tls=oracle_tls, reuse=oracle_reuse)
+
 FAMILIES = dict(mixed=lambda rng, n, dist, th: gen_mixed(rng, "quick", dist, n), observers=lambda r, n, d, th: fam_observers(r, n, d),
                 abor=lambda r, n, d, th: fam_abor(r, n, d), downloads=fam_downloads, uploads=fam_uploads,
                 refusals=lambda r, n, d, th: fam_refusals(r, n, d), cancel=lambda r, n, d, th: fam_cancel(r, n, d),
-                args=lambda r, n, d, th: fam_args(r, n, d))
+                args=lambda r, n, d, th: fam_args(r, n, d), tls=lambda r, n, d, th: fam_tls(r, n, d),
+                reconnect=lambda r, n, d, th: fam_reconnect(r, n, d), reuse=lambda r, n, d, th: fam_reuse(r, n, d))
 
 # ---------------------------------------------------------------------------------------------- the checks
 PROPS = {
     # id: families with their share of the scenario budget, correspondence projections, oracles
     "C02": dict(fam=[("mixed", 5), ("abor", 2), ("refusals", 1)], proj=["out", "state", "wire"], oracles=["lockstep"]),
     "C09": dict(fam=[("args", 4), ("mixed", 2)], proj=["out", "wire"], oracles=["commands"]),
-    "C10": dict(fam=[("mixed", 6), ("args", 1), ("refusals", 1)], proj=["out", "state", "wire"], oracles=["commands", "state"]),
+    "C10": dict(fam=[("mixed", 6), ("args", 1), ("refusals", 1), ("tls", 2)], proj=["out", "state", "wire"], oracles=["commands", "state"]),
     "C14": dict(fam=[("observers", 5), ("mixed", 2)], proj=["out", "obs"], oracles=["observers"]),
     "C03": dict(fam=[("downloads", 6), ("mixed", 1)], proj=["out", "io"], oracles=["transfers"]),
     "C04": dict(fam=[("uploads", 6), ("mixed", 1)], proj=["out", "io", "wire"], oracles=["transfers"]),
     "C07": dict(fam=[("refusals", 6), ("mixed", 1)], proj=["out", "io", "held", "wire"], oracles=["transfers", "sockets", "lockstep"]),
     "C12": dict(fam=[("cancel", 5), ("mixed", 1), ("uploads", 1)], proj=["out", "io", "wire"], oracles=["transfers", "commands"]),
-    "C17": dict(fam=[("mixed", 3), ("refusals", 1), ("cancel", 1)], proj=["out", "held"], oracles=["sockets"]),
+    "C17": dict(fam=[("mixed", 3), ("refusals", 1), ("cancel", 1), ("reconnect", 1), ("tls", 1)], proj=["out", "held"], oracles=["sockets"]),
+    "C11": dict(fam=[("tls", 6), ("reconnect", 1)], proj=["out", "state", "wire"], oracles=["tls", "commands"], n=(90, 500)),
+    "C13": dict(fam=[("reconnect", 6), ("tls", 1)], proj=["out", "state", "held", "wire"], oracles=["state", "sockets", "lockstep", "tls"], n=(120, 600)),
+    "C18": dict(fam=[("reuse", 1)], proj=["out", "wire"], oracles=["reuse"], n=(60, 300)),
 }
 
 
 def generate(prop, rng, tier, dist):
     total = 1200 if tier == "thorough" else 240
+    if "n" in PROPS[prop]:
+        total = PROPS[prop]["n"][1 if tier == "thorough" else 0]
     fams = PROPS[prop]["fam"]
     wsum = sum(w for _, w in fams)
     scns = []
